@@ -76,6 +76,9 @@ func (fr *Frame) monitorCall(ins ssa.CallInstruction, cc *ssa.CallCommon, ci *ca
 	obj := fr.val(objV)
 	mu := args[0]
 	held := c.ghost(fr.st, "held")
+	fr.ghostAtCall(ci, 0, "before", args)
+	defer fr.callSpecAssumes(ci)
+	defer fr.ghostAtCallAfter(ci, 0, args, nil)
 	switch meth {
 	case "Lock", "RLock":
 		fr.oblige("monitor.nolock", "", not(sel(held, mu, SBool)), ins.Pos(), "mutex not already held (self-deadlock)")
